@@ -2,6 +2,7 @@ import EpgVerif.Model.CF
 import EpgVerif.Model.Bloch
 import EpgVerif.Model.DiffSM
 import EpgVerif.Model.Jet
+import EpgVerif.Gen.MathTable
 /-
   Line-protocol driver over the executable model at `K := CF` (DESIGN Appendix A).
   One request per line; floats travel as the decimal of their IEEE-754 bits.
@@ -15,6 +16,56 @@ def showPS (p : PS CF) : String :=
   s!"{bits p.fp.re} {bits p.fp.im} {bits p.fm.re} {bits p.fm.im} {bits p.z.re} {bits p.z.im}"
 
 abbrev JC := Jet CF
+
+instance : RealOps Float where
+  abs := Float.abs
+  sign x := if x > 0 then 1 else if x < 0 then -1 else 0
+  log := Float.log
+  exp := Float.exp
+  pow := Float.pow
+
+def fnOfTok : String → Fn
+  | "left" => .left | "right" => .right | "sign" => .sign | "neg" => .neg | "abs" => .abs
+  | "add" => .add | "sub" => .sub | "mul" => .mul | "inv" => .inv | "div" => .div
+  | "pow" => .pow | "log" => .log | _ => .exp
+
+/-- prefix notation: `c <bits>` | `v <name>` | `f1 <fn> <e>` | `f2 <fn> <e> <e>` -/
+partial def parseSE : List String → Option (SE Float × List String)
+  | "c" :: b :: rest => some (.const (fOfTok b), rest)
+  | "v" :: n :: rest => some (.var n, rest)
+  | "f1" :: f :: rest =>
+    match parseSE rest with
+    | some (a, rest) => some (.app1 (fnOfTok f) a, rest)
+    | none => none
+  | "f2" :: f :: rest =>
+    match parseSE rest with
+    | some (a, rest) =>
+      match parseSE rest with
+      | some (b, rest) => some (.app2 (fnOfTok f) a b, rest)
+      | none => none
+    | none => none
+  | _ => none
+
+/-- `sexpr <vars to derive, comma separated or -> <name=bits ...> | <prefix expr>` -/
+def sexprCmd (toks : List String) : String :=
+  match toks with
+  | dv :: rest =>
+    let envToks := rest.takeWhile (· ≠ "|")
+    let exprToks := (rest.dropWhile (· ≠ "|")).drop 1
+    let envL : List (String × Float) := envToks.filterMap (fun t =>
+      match t.splitOn "=" with
+      | [n, b] => some (n, fOfTok b)
+      | _ => none)
+    let env : String → Float := fun n => ((envL.find? (·.1 == n)).map (·.2)).getD 0
+    match parseSE exprToks with
+    | some (e, _) =>
+      let vs := if dv == "-" then [] else dv.splitOn ","
+      let de := vs.foldl (fun (acc : Option (SE Float)) v => acc.bind (SE.derive Gen.mathTable v)) (some e)
+      match de with
+      | some d => s!"val {bits (SE.eval env 0 0 d)}"
+      | none => "val none"
+    | none => "bad-expr"
+  | _ => "bad-expr"
 
 structure DState where
   opts : Opts := {}
@@ -171,6 +222,7 @@ def step (d : DState) (line : String) : DState × List String :=
       ({ d with sm := s, sm0 := s, ops := #[], ds := ⟨s, [], []⟩, dsm := ⟨s, [], []⟩, js := liftSM s }, [])
   | ["dump"] => (d, [dumpSM d.sm])
   | ["dumpeq"] => (d, [dumpEq d.sm])
+  | "sexpr" :: rest => (d, [sexprCmd rest])
   | ["dumpd"] => (d, dumpDiff d)
   | ["dumpj"] => (d, dumpJets d)
   | ["bloch", N, kmax] => (d, [blochDump d N.toNat! kmax.toNat!])
